@@ -131,4 +131,68 @@ theorem bshape_absorb_right (s t r : List Nat) (h : bshape s t = some r) : bshap
   bshape_absorb t s r (by rw [bshape_comm]; exact h)
 
 
+/-! ### associativity -/
+
+theorem bdim_assoc (a b c : Nat) :
+    (bdim a b).bind (fun ab => bdim ab c) = (bdim b c).bind (fun bc => bdim a bc) := by
+  unfold bdim
+  by_cases h1 : a = b <;> by_cases h2 : b = c <;> by_cases h3 : a = 1 <;> by_cases h4 : b = 1 <;> by_cases h5 : c = 1 <;>
+    by_cases h6 : a = c <;> simp_all <;> omega
+
+theorem bshapeRev_nil_left (t : List Nat) : bshapeRev [] t = some t := by cases t <;> rfl
+
+def bcons (d : Option Nat) (r : Option (List Nat)) : Option (List Nat) :=
+  match d, r with
+  | some d, some r => some (d :: r)
+  | _, _ => none
+
+theorem bshapeRev_cons (a b : Nat) (s t : List Nat) : bshapeRev (a :: s) (b :: t) = bcons (bdim a b) (bshapeRev s t) := by
+  simp only [bshapeRev, bcons]
+  cases bdim a b <;> cases bshapeRev s t <;> rfl
+
+theorem bcons_bind_left (d : Option Nat) (r : Option (List Nat)) (c : Nat) (u : List Nat) :
+    (bcons d r).bind (fun x => bshapeRev x (c :: u)) = bcons (d.bind (fun y => bdim y c)) (r.bind (fun y => bshapeRev y u)) := by
+  cases d <;> cases r <;> simp [bcons, bshapeRev_cons]
+
+theorem bcons_bind_right (d : Option Nat) (r : Option (List Nat)) (a : Nat) (s : List Nat) :
+    (bcons d r).bind (fun x => bshapeRev (a :: s) x) = bcons (d.bind (fun y => bdim a y)) (r.bind (fun y => bshapeRev s y)) := by
+  cases d <;> cases r <;> simp [bcons, bshapeRev_cons]
+
+theorem bshapeRev_assoc : ∀ (s t u : List Nat),
+    (bshapeRev s t).bind (fun st => bshapeRev st u) = (bshapeRev t u).bind (fun tu => bshapeRev s tu)
+  | [], t, u => by
+    rw [bshapeRev_nil_left]
+    simp only [Option.bind_some]
+    cases bshapeRev t u <;> simp [bshapeRev_nil_left]
+  | a :: s, [], u => by
+    simp [bshapeRev, bshapeRev_nil_left]
+  | a :: s, b :: t, [] => by
+    simp only [bshapeRev_nil_right, Option.bind_some]
+    cases bshapeRev (a :: s) (b :: t) <;> simp [bshapeRev_nil_right]
+  | a :: s, b :: t, c :: u => by
+    rw [bshapeRev_cons, bshapeRev_cons, bcons_bind_left, bcons_bind_right, bdim_assoc a b c, bshapeRev_assoc s t u]
+
+/-- Broadcasting of shapes is associative (undefined on one side iff undefined on the other). -/
+theorem bshape_assoc (s t u : List Nat) :
+    (bshape s t).bind (fun st => bshape st u) = (bshape t u).bind (fun tu => bshape s tu) := by
+  have h := bshapeRev_assoc s.reverse t.reverse u.reverse
+  have e1 : (bshape s t).bind (fun st => bshape st u)
+      = ((bshapeRev s.reverse t.reverse).bind (fun r => bshapeRev r u.reverse)).map List.reverse := by
+    unfold bshape
+    cases bshapeRev s.reverse t.reverse <;> simp
+  have e2 : (bshape t u).bind (fun tu => bshape s tu)
+      = ((bshapeRev t.reverse u.reverse).bind (fun r => bshapeRev s.reverse r)).map List.reverse := by
+    unfold bshape
+    cases bshapeRev t.reverse u.reverse <;> simp
+  rw [e1, e2, h]
+
+
+/-- Broadcasting into a shape is transitive. -/
+theorem bshape_into_trans (a m out : List Nat) (h1 : bshape a m = some m) (h2 : bshape m out = some out) :
+    bshape a out = some out := by
+  have h := bshape_assoc a m out
+  rw [h1, h2] at h
+  simp only [Option.bind_some] at h
+  rw [← h, h2]
+
 end Ndx
